@@ -103,6 +103,30 @@ fn v1_corruptions(base: &[u8]) -> Vec<Corruption> {
             Expect::V1("InvalidProtocol"),
         );
     }
+    // every single-character insertion of a sign / digit / punctuation character into the
+    // keyword and into the protocol (what a lenient numeric or prefix match lets through)
+    for (element, s, e, kind) in [
+        ("keyword", 0usize, 5usize, "InvalidPrefix"),
+        ("protocol", ps, pe, "InvalidProtocol"),
+    ] {
+        let word = &base[s..e];
+        for at in 0..=word.len() {
+            for ch in [b'0', b'+', b'-', b'4', b'6', b'.', b'_', b'\t'] {
+                let mut w = word.to_vec();
+                w.insert(at, ch);
+                // still invalid? (inserting into UNKNOWN / TCPx never yields another valid word)
+                if matches!(w.as_slice(), b"PROXY" | b"TCP4" | b"TCP6" | b"UNKNOWN") {
+                    continue;
+                }
+                push(
+                    element,
+                    format!("{} -> {:?}", element, String::from_utf8_lossy(&w)),
+                    replace(base, s, e, &w),
+                    Expect::V1(kind),
+                );
+            }
+        }
+    }
     if !is_unknown && fields.len() == 6 {
         let v4 = line.starts_with(b"PROXY TCP4");
         // spellings other resolvers accept (inet_aton short / hex / octal / decimal forms, zone
